@@ -108,6 +108,8 @@ def sensitivity(argv):
         d = os.path.dirname(meta_path)
         name = meta.get("name") or os.path.basename(d)
         patch = os.path.join(d, meta.get("patch", "patch.diff")) if "seeded" in meta_path else os.path.join(d, meta["patch"])
+        if meta.get("obsolete"):
+            continue
         catalog.append((name, patch, meta))
     budget = os.environ.get("VERIF_BUDGET_S", "30")
     for name, patch, meta in catalog:
